@@ -76,6 +76,14 @@ fn history_segs(rng: &mut Rng, h: &str, l: &mut LinkScn) {
             for i in 0..n {
                 v.push(0x40 + i as u8);
             }
+            if n > 0 && rng.chance(1, 2) {
+                // the aborted frame's data ends in zeros that the decoder is still withholding
+                let z = rng.range(1, n.min(4));
+                for k in 0..z {
+                    let at = v.len() - 1 - k;
+                    v[at] = 0;
+                }
+            }
             v.extend_from_slice(&[0x1b; 4]);
             v.extend_from_slice(&[*rng.pick(&[0x02u8, 0x1c, 0x03]), 0x00, 0x00, 0x00]);
             l.segs.push(Seg::Raw(Hx(v)));
